@@ -43,6 +43,7 @@ func main() {
 	sect("proto", 4, protoSection)
 	sect("aqua", 5, aquaSection)
 	sect("ident", 6, identSection)
+	sect("bond", 8, bondSection)
 	if stalls != nil {
 		t0 := time.Now()
 		stalls.join(run)
